@@ -20,6 +20,14 @@ MIN_OBLIGATIONS = 18
 
 
 def run(repo, chk):
+    _run(repo, chk)
+    chk.rule('C09.f', 'a timer that is registered (or an event that is fired) from another thread while the loop sleeps on a later expiry takes effect at '
+                      'once: reducing the budget to 0 wakes the idle handler whatever its previous budget was (obligations decided for C03.c)')
+    n = chk.adopt('f', 'C03', repo, lambda o: o.rule == 'C03.c')
+    need(n >= 3, f'C09.f: only {n} shared obligations found')
+
+
+def _run(repo, chk):
     chk.not_decided = ['numeric timing; datetime deadlines are rounded by mktime/timetuple (whole seconds)',
                        'that the OS wait does not return late']
     chk.rule('C09.a', 'the timer fires only under now >= expiry, where now = time() of the same handler invocation')
